@@ -151,6 +151,8 @@ def run_property(pid, tier, seed, replay, *, make_cases, judge, corr_filter=None
               not judge_bad, "%d histories fail" % len(judge_bad))
     if extra_obligations:
         extra_obligations(ck)
+    if tier == "thorough" and not replay and pid in ("C01", "C02", "C07"):
+        extraction_crosscheck(ck, rng)
 
     # known findings: print the ones listed in known_findings.json that reproduced
     listed = {f["id"]: f for f in known_findings()["findings"] if pid in f["properties"]}
@@ -223,3 +225,117 @@ def histories(rng, n, lo=5, hi=40, n_long=None, **kw):
 
 def nontrivial_default(rec, price, ops):
     return any(o.startswith("MATCH") or o.startswith("UPD") for o in ops) and any(o.startswith("ADD") for o in ops)
+
+
+# ---------------------------------------------------------------- extraction cross-check (thorough tier)
+
+def _n(v):
+    return "%d%%N" % v
+
+
+def coq_oid(k):
+    return "(%s %s)" % ("Uuid" if k[0] == "u" else "Ulid", _n(int(k[1:])))
+
+
+def coq_order(s):
+    d = gen.parse_order(s)
+    tif = d["tif"]
+    tifc = {"GTC": "Gtc", "IOC": "Ioc", "FOK": "Fok", "DAY": "Day"}.get(tif) or "(Gtd %s)" % _n(int(tif[3:]))
+    c = "(mkCommon %s %s %s %s %s)" % (coq_oid(d["id"]), _n(d["price"]), "Buy" if d["side"] == "B" else "Sell", _n(d["ts"]), tifc)
+    k = d["kind"]
+    if k == "S": return "(Standard %s %s)" % (c, _n(d["vis"]))
+    if k == "P": return "(PostOnly %s %s)" % (c, _n(d["vis"]))
+    if k == "M": return "(MarketToLimit %s %s)" % (c, _n(d["vis"]))
+    if k == "I": return "(Iceberg %s %s %s)" % (c, _n(d["vis"]), _n(d["hid"]))
+    if k == "T": return "(TrailingStop %s %s %s %s)" % (c, _n(d["vis"]), _n(int(d["params"][0])), _n(int(d["params"][1])))
+    if k == "G":
+        peg = {"BB": "BestBid", "BA": "BestAsk", "MP": "MidPrice", "LT": "LastTrade"}[d["params"][1]]
+        return "(Pegged %s %s (%s)%%Z %s)" % (c, _n(d["vis"]), d["params"][0], peg)
+    thr, amt, au = d["params"]
+    return "(Reserve %s %s %s %s %s %s)" % (c, _n(d["vis"]), _n(d["hid"]), _n(int(thr)),
+                                            "None" if amt == "-" else "(Some %s)" % _n(int(amt)), "true" if au == "1" else "false")
+
+
+def coq_update(u):
+    f = u.split(":")
+    if f[0] == "C": return "(Cancel %s)" % coq_oid(f[1])
+    if f[0] == "UP": return "(UpdatePrice %s %s)" % (coq_oid(f[1]), _n(int(f[2])))
+    if f[0] == "UQ": return "(UpdateQuantity %s %s)" % (coq_oid(f[1]), _n(int(f[2])))
+    if f[0] == "UPQ": return "(UpdatePriceAndQuantity %s %s %s)" % (coq_oid(f[1]), _n(int(f[2])), _n(int(f[3])))
+    return "(Replace %s %s %s %s)" % (coq_oid(f[1]), _n(int(f[2])), _n(int(f[3])), "Buy" if f[4] == "B" else "Sell")
+
+
+def extraction_crosscheck(ck, rng, n=120):
+    """Sampled histories evaluated inside Coq (vm_compute on Model/Run.v) vs the extracted model + driver."""
+    import subprocess
+    cases = []
+    for i in range(n):
+        g = lvl.HistGen(rng, rebuilds=False, reads=False, forks=False)
+        ops = [o for o in g.history(rng.randint(4, 25)) if o.split(" ")[0] in ("ADD", "MATCH", "UPD")]
+        ops = [o for o in ops if not (o.startswith("MATCH") and int(o.split(" ")[1]) > (1 << 40))]
+        cases.append((g.price, ops))
+    # extracted model
+    inp = []
+    for price, ops in cases:
+        inp.append("NEW %d C" % price)
+        inp += ops
+        inp.append("STATE")
+    p = subprocess.run([MODELRUN], input="\n".join(inp) + "\n", text=True, stdout=subprocess.PIPE, timeout=600)
+    outs = p.stdout.splitlines()
+    finals, k = [], 0
+    for price, ops in cases:
+        k += 1 + len(ops)
+        finals.append(outs[k][2:])
+        k += 1
+    # the generator counter is not part of STATE: recompute it from the number of transactions
+    def summarise(state, n_tx):
+        d = lvl.kv(state)
+        st = [int(x) for x in d["st"].split("/")]
+        m = gen.parse_list(d["map"])
+        tk = gen.parse_list(d["tk"])
+
+        def onum(k):
+            return 2 * int(k[1:]) + (0 if k[0] == "u" else 1)
+        h1 = 0
+        for o in m:
+            q = gen.parse_order(o)
+            h1 = (h1 * 31 + onum(q["id"]) + 3 * q["vis"] + 7 * q["hid"]) % 1000000007
+        h2 = 0
+        for t in tk:
+            h2 = (h2 * 31 + onum(t)) % 1000000007
+        return [int(d["cv"]), int(d["ch"]), int(d["cc"]), n_tx] + st + [len(m), len(tk), h1, h2]
+    # number of transactions per case = generator counter: count from MATCH answers
+    ntx, k = [], 0
+    for price, ops in cases:
+        k += 1
+        c = 0
+        for o in ops:
+            if o.startswith("MATCH"):
+                c += len(gen.parse_list(lvl.kv(outs[k][2:])["txs"]))
+            k += 1
+        k += 1
+        ntx.append(c)
+    want = [summarise(f, c) for f, c in zip(finals, ntx)]
+    path = os.path.join(COQ, "cases_lvl.v")
+    with open(path, "w") as f:
+        f.write("From PL Require Import Model.Run.\nOpen Scope N_scope.\n")
+        for price, ops in cases:
+            terms = []
+            for o in ops:
+                t = o.split(" ")
+                if t[0] == "ADD": terms.append("RAdd %s" % coq_order(t[1]))
+                elif t[0] == "MATCH": terms.append("RMatch %s %s" % (_n(int(t[1])), coq_oid(t[2])))
+                else: terms.append("RUpd %s" % coq_update(t[1]))
+            f.write("Eval vm_compute in run_summary 3000 %s [%s].\n" % (_n(price), "; ".join(terms)))
+    rc, out = sh("timeout 900 coqc -noglob -Q . PL cases_lvl.v", cwd=COQ)
+    for ext in (".v", ".vo", ".vok", ".vos", ".glob"):
+        try: os.remove(os.path.join(COQ, "cases_lvl" + ext))
+        except OSError: pass
+    if rc != 0:
+        ck.oblige("extraction cross-check (vm_compute) runs", False, out[-400:])
+        return
+    flat = " ".join(out.split())
+    got = [[int(x) for x in m.split("; ")] for m in re.findall(r"= \[([0-9; ]+)\]", flat)]
+    bad = [i for i, (a, b) in enumerate(zip(got, want)) if a != b]
+    ck.oblige("extracted model + driver = vm_compute inside Coq (Model/Run.v) on %d sampled histories" % len(cases),
+              not bad and len(got) == len(cases), "%d differ, %d evaluated; first: %s" % (len(bad), len(got), (cases[bad[0]], got[bad[0]], want[bad[0]]) if bad else ""))
